@@ -7,6 +7,7 @@ import (
 	"os"
 	"os/exec"
 	"path/filepath"
+	"strings"
 	"syscall"
 	"testing"
 
@@ -32,6 +33,28 @@ func TestRealFSWorker(t *testing.T) {
 		t.Skip("worker entry point")
 	}
 	var r rfReply
+	if os.Getenv("VERIF_C18_RF_CREATE") == "1" {
+		// Create into a directory in which one output name is a symbolic link to /dev/full: open succeeds, write(2) fails
+		dir := filepath.Dir(idx)
+		in := []string{filepath.Join(dir, "a.dat"), filepath.Join(dir, "b.dat")}
+		pan, msg := run.Safe(func() {
+			var err error
+			if filepath.Ext(idx) == ".par2" {
+				err = par2.Create(idx, in, par2.CreateOptions{SliceByteCount: 64, NumParityShards: 4, NumGoroutines: 1})
+			} else {
+				err = par1.Create(idx, in, par1.CreateOptions{NumParityFiles: 2})
+			}
+			if err != nil {
+				r.RepairErr = err.Error()
+			}
+		})
+		if pan {
+			r.Pan = msg
+		}
+		b, _ := json.Marshal(r)
+		fmt.Printf("\nRFREPLY %s\n", b)
+		return
+	}
 	pan, msg := run.Safe(func() {
 		if filepath.Ext(idx) == ".par2" {
 			_, err := par2.Verify(idx, par2.VerifyOptions{NumGoroutines: 1})
@@ -93,6 +116,26 @@ func runRF(c RFCase) (msg string) {
 	if err != nil {
 		return "harness: Create failed: " + err.Error()
 	}
+	createFault := strings.HasPrefix(c.Fault, "create-")
+	if createFault {
+		// the set is created again by the worker; one of the output names (a file of less than 4096 bytes) now is a
+		// symbolic link to /dev/full, where every write(2) fails with ENOSPC after a successful open
+		if _, err := os.Stat("/dev/full"); err != nil {
+			return "INCONCLUSIVE"
+		}
+		out, _ := filepath.Glob(filepath.Join(dir, "set.*"))
+		target := idx
+		if c.Fault == "create-volume-devfull" {
+			target = filepath.Join(dir, "set.vol00+01.par2")
+			if c.Format == "par1" {
+				target = filepath.Join(dir, "set.p01")
+			}
+		}
+		for _, o := range out {
+			os.Remove(o)
+		}
+		os.Symlink("/dev/full", target)
+	}
 	// state that needs a repair: b.dat is missing (so that Repair has to write) unless the fault is about reading a.dat
 	vol := "set.vol00+01.par2"
 	if c.Format == "par1" {
@@ -126,6 +169,9 @@ func runRF(c RFCase) (msg string) {
 	}
 	cmd := exec.Command(os.Args[0], "-test.run", "^TestRealFSWorker$", "-test.v")
 	cmd.Env = append(os.Environ(), "VERIF_C18_RF_INDEX="+idx)
+	if createFault {
+		cmd.Env = append(cmd.Env, "VERIF_C18_RF_CREATE=1")
+	}
 	cmd.SysProcAttr = &syscall.SysProcAttr{Credential: &syscall.Credential{Uid: 65534, Gid: 65534}}
 	cmd.Dir = "/"
 	out, err := cmd.CombinedOutput()
@@ -145,6 +191,10 @@ func runRF(c RFCase) (msg string) {
 		return "panicked: " + r.Pan
 	}
 	switch c.Fault {
+	case "create-index-devfull", "create-volume-devfull":
+		if r.RepairErr == "" {
+			return "every write to one of the output files failed (ENOSPC) but Create returned nil"
+		}
 	case "nolist":
 		if c.Format == "par2" && (r.VerifyErr == "" || r.RepairErr == "") {
 			return fmt.Sprintf("the directory listing failed (directory mode 0300) but Verify err=%q, Repair err=%q: a failed listing must be reported, not treated as 'no recovery files'", r.VerifyErr, r.RepairErr)
@@ -167,7 +217,7 @@ func realFSFaults(rec *run.Rec) {
 		return
 	}
 	for _, f := range []string{"par2", "par1"} {
-		for _, k := range []string{"nolist", "noread-data", "noread-volume", "nowrite-dir", "nowrite-file", "nowrite-dangling"} {
+		for _, k := range []string{"nolist", "noread-data", "noread-volume", "nowrite-dir", "nowrite-file", "nowrite-dangling", "create-index-devfull", "create-volume-devfull"} {
 			c := RFCase{Format: f, Fault: k}
 			rec.Eval()
 			rec.Class("realfs:" + k)
